@@ -1237,6 +1237,21 @@ def _tokenize(
                             continue
                         else:
                             if tolerant:
+                                # Unterminated single-quoted f-string: close
+                                # it here, as the end-of-line branch below
+                                # does, and let the newline be tokenized
+                                # normally.  A bare ``break`` left ``pos`` and
+                                # the f-string stack unchanged, so the outer
+                                # loop re-entered this block forever.
+                                if text:
+                                    yield TokenInfo(
+                                        FSTRING_MIDDLE,
+                                        text,
+                                        (lnum, text_start),
+                                        (lnum, pos),
+                                        line,
+                                    )
+                                fstring_stack.pop()
                                 break
                             raise TokenError(
                                 "EOL while scanning f-string",
